@@ -20,10 +20,9 @@ func (msg *MsgUpdateMintersParams) Type() string {
 }
 
 func (msg *MsgUpdateMintersParams) GetSigners() []sdk.AccAddress {
-	creator, err := sdk.AccAddressFromBech32(msg.Authority)
-	if err != nil {
-		panic(err)
-	}
+	// a malformed address gives an empty signer instead of a panic (as in the messages of cosmos-sdk): ValidateBasic
+	// reports it, and x/authz asks a wrapped message for its signers before anything validated it
+	creator, _ := sdk.AccAddressFromBech32(msg.Authority)
 	return []sdk.AccAddress{creator}
 }
 
@@ -60,10 +59,9 @@ func (msg *MsgUpdateParams) Type() string {
 }
 
 func (msg *MsgUpdateParams) GetSigners() []sdk.AccAddress {
-	creator, err := sdk.AccAddressFromBech32(msg.Authority)
-	if err != nil {
-		panic(err)
-	}
+	// a malformed address gives an empty signer instead of a panic (as in the messages of cosmos-sdk): ValidateBasic
+	// reports it, and x/authz asks a wrapped message for its signers before anything validated it
+	creator, _ := sdk.AccAddressFromBech32(msg.Authority)
 	return []sdk.AccAddress{creator}
 }
 
